@@ -297,7 +297,9 @@ func runC19(c *core.Ctx) error {
 	for _, p := range rt {
 		path := core.Module + strings.TrimPrefix(p, ".")
 		checkEscapingClosures(c, r6, prog, path, core.ShortPkg(path))
-		checkGlobalRefEscape(c, r7, prog, path, core.ShortPkg(path))
+		// runtime packages: package-level pointers to library objects with internal state (a *rand.Rand, a
+		// *bytes.Buffer) are covered too — calling a method on one from concurrent requests races inside it
+		checkGlobalRefEscapeOpt(c, r7, prog, path, core.ShortPkg(path), true)
 	}
 
 	// S2
@@ -502,6 +504,7 @@ func checkGlobalRefEscape(c *core.Ctx, r *core.Rule, prog *core.Prog, pkgPath, l
 // immutableByAPI: pointer types whose exported API offers no mutation (sharing them is harmless).
 var immutableByAPI = map[string]bool{
 	"*regexp.Regexp": true, "*text/template.Template": true, "*go/token.FileSet": true, "*strings.Replacer": true,
+	"*unicode.RangeTable": true, // read-only table consulted by unicode.Is
 }
 
 // readOnlyOrSyncSafe: methods of library types that may be called on a
